@@ -1,6 +1,7 @@
 import Sentinel.Lemmas.LeapArrayRace
 import Sentinel.Lemmas.LeapArrayRaceTerm
 import Sentinel.Lemmas.LeapArrayRaceOwn
+import Sentinel.Lemmas.LeapArrayRaceStarted
 /-!
 # C09 — Sliding-window counters stay sound under concurrent writers and rollover
 (property theorems only; the invariants live in `Sentinel/Lemmas/LeapArrayRace*.lean`)
@@ -40,6 +41,22 @@ theorem no_invention (n L Iv t0 clock : Nat) (progs : List (List OpSpec)) (s : L
   have inv := run_inv _ s (inv_init n L Iv t0 clock progs)
   have h := (inv.th t ht).1 r hr
   exact ⟨h.1 v hv, h.2⟩
+
+/-- the ghost total is itself bounded by the adds that have **started**: `Cfg.started ev` is the sum of the amounts of
+    the `add ev` operations that have begun (completed ones and those in progress), over all threads -/
+theorem performed_le_started (n L Iv t0 clock : Nat) (progs : List (List OpSpec)) (s : List Entry) (ev : Nat) :
+    (run (fresh n L Iv t0 clock progs) s).sh.performed ev ≤ (run (fresh n L Iv t0 clock progs) s).started ev := by
+  refine le_trans (run_cred _ s ev ?_) (cfg_cred_le_started ev _)
+  simp [fresh, mkShared, Shared.performed, sumTo_zero]
+
+/-- **no invention, in the property's wording**: at every reachable configuration, every completed read of event
+    `ev` reported at most the sum of the amounts of the `add ev` operations that have started -/
+theorem no_invention_started (n L Iv t0 clock : Nat) (progs : List (List OpSpec)) (s : List Entry) :
+    let c := run (fresh n L Iv t0 clock progs) s
+    ∀ t ∈ c.th, ∀ r ∈ t.res, ∀ v, r.val = some v → v ≤ c.started r.op.ev := by
+  intro c t ht r hr v hv
+  have h := no_invention n L Iv t0 clock progs s t ht r hr v hv
+  exact le_trans h.1 (le_trans h.2 (performed_le_started n L Iv t0 clock progs s r.op.ev))
 
 /-- … and the same over any number of rounds: the invariant `Inv` carries over to a new round of threads
     on the state left behind, so `no_invention_from` applies again. -/
